@@ -108,7 +108,7 @@ def _sym_container(V, kind):
 
 
 for _k in ('list', 'set', 'vtuple', 'tuple', 'dict', 'optlist', 'unionlist'):
-    ob('sym/' + _k, marks=['accept'] if _k == 'unionlist' else ['accept', 'reject'], budget=(160 if ('list' in _k and _k != 'list') or _k == 'set' else 100, 500),
+    ob('sym/' + _k, marks=['accept'] if _k == 'unionlist' else ['accept', 'reject'], exhaustive=(True, False), budget=(160 if ('list' in _k and _k != 'list') or _k == 'set' else 100, 500),
        bounds='%s over Rule[int](ge=a), a in -3..3 symbolic; input list / tuple / set (dict for dict) of n <= 2 (1 for dict and the staged unions; 3 thorough) '
               'elements: solver int in -6..6 (picked from {-7,-1,0,1,7} where they get hashed: set input / output, dict keys) | bool | None | "5" | 1.5 | "x"; flags solver-picked' % _k,
        out='larger containers')((lambda k: lambda V: _sym_container(V, k))(_k))
